@@ -1,1 +1,3 @@
 //! Explorers
+pub mod dataworld;
+pub mod e1;
